@@ -15,7 +15,11 @@
 #define	RETURN(_code)	do {						\
 		asn_dec_rval_t rval;					\
 		rval.code = _code;					\
-		if(opt_ctx) opt_ctx->step = step; /* Save context */	\
+		if(opt_ctx) {						\
+			opt_ctx->step = step; /* Save context */	\
+			if(_code == RC_WMORE)				\
+				opt_ctx->left = -expect_00_terminators;	\
+		}							\
 		if(_code == RC_OK || opt_ctx)				\
 			rval.consumed = consumed_myself;		\
 		else							\
@@ -108,6 +112,13 @@ ber_check_tags(const asn_codec_ctx_t *opt_codec_ctx,
 	tagno = step	/* Continuing where left previously */
 		+ (tag_mode==1?-1:0)
 		;
+	if(opt_ctx && step > 0 && opt_ctx->left < 0) {
+		/*
+		 * Restarted in the middle of the tags chain: recall the number
+		 * of indefinite length TLVs which were seen before RC_WMORE.
+		 */
+		expect_00_terminators = -opt_ctx->left;
+	}
 	ASN_DEBUG("ber_check_tags(%s, size=%ld, tm=%d, step=%d, tagno=%d)",
 		td->name, (long)size, tag_mode, step, tagno);
 	/* assert(td->tags_count >= 1) May not be the case for CHOICE or ANY */
